@@ -12,7 +12,8 @@ import Rpft.Drv.Json
 import Rpft.RowUnparse
 import Rpft.RowSpec
 import Rpft.FlowSchema
-namespace Rpft.Drv
+namespace Rpft.Drv.RowD
+open Rpft.Drv
 open Lean Rpft Rpft.Row
 
 def pairsOfJ (j : Json) : Except String (List (Str × Str)) := do
@@ -179,4 +180,4 @@ def handleRow (op : String) (j : Json) : Except String Json := do
         | none => Json.null)])
   | _ => throw s!"unknown op {op}"
 
-end Rpft.Drv
+end Rpft.Drv.RowD
